@@ -12,7 +12,8 @@ def main():
 	only = sys.argv[1:]
 	bad = 0
 	for name in sorted(os.listdir(os.path.join(HERE, 'benign'))):
-		if not name.endswith('.diff') or (only and name[:-5] not in only and not any(o.startswith('C') for o in only)):
+		names = [o for o in only if not o.startswith('C')]
+		if not name.endswith('.diff') or (names and name[:-5] not in names):
 			continue
 		base = tempfile.mkdtemp(prefix='vbenign_')
 		try:
